@@ -70,6 +70,55 @@ pub fn c43(args: &Args) -> ! {
     rep.finish()
 }
 
+pub fn c40(args: &Args) -> ! {
+    let mut rep = Report::new(args, Level::ModelChecking);
+    let quick = args.tier == Tier::Quick;
+    let mut jobs = Vec::new();
+    let bname = |b: i64| if b == 0 { "shm" } else { "memory" };
+    // (backend, family, max length, bounds, unbounded, shards, cap)
+    let plan: Vec<(i64, i64, i64, Vec<usize>, bool, i64, u64)> = if quick {
+        vec![
+            (0, 0, 5, vec![], true, 2, 30),
+            (1, 0, 5, vec![], true, 2, 30),
+            (0, 1, 2, vec![0, 1, 2, 3, 4], false, 1, 30),
+            (1, 1, 2, vec![], true, 1, 30),
+            (1, 2, 2, vec![], true, 1, 30),
+        ]
+    } else {
+        vec![
+            (0, 0, 6, vec![], true, 4, 700),
+            (1, 0, 6, vec![], true, 4, 700),
+            (0, 1, 2, vec![0, 1, 2, 3, 4, 5], false, 1, 700),
+            (0, 1, 2, vec![6], false, 6, 700),
+            (0, 1, 3, vec![0, 1, 2, 3, 4], false, 4, 700),
+            (1, 1, 3, vec![], true, 1, 700),
+            (1, 2, 3, vec![], true, 1, 700),
+        ]
+    };
+    for (backend, family, len, bs, unb, shards, cap) in plan {
+        for b in bounds(&bs, unb) {
+            for sh in 0..shards {
+                let shape = match family {
+                    0 => format!("{} state, sequential: one seal context, every sequence of length <= {len} (with at least one seal) over {{seal, seal whose closure fails, writer adds another channel, writer removes another channel, remove_all + re-add}}; shard {sh}/{shards}", bname(backend)),
+                    1 => format!("{} state: sealer thread runs seal,seal,seal | seal,failing seal,seal while the writer runs every sequence of length <= {len} over {{add other, remove other}}; shard {sh}/{shards}", bname(backend)),
+                    _ => format!("memory state: two threads race setup_seal_ctx for one channel, 1..={len} seals each through the context they get"),
+                };
+                jobs.push(Job::new("afc", "c40", &[backend, family, len, sh, shards], b, cap, &shape));
+            }
+        }
+    }
+    let results = run_jobs(&args.prop, &jobs, PARALLEL);
+    fold(&mut rep, &args.prop, results);
+    guards(
+        &mut rep,
+        &["seal_ok", "failing_seal_reported", "seal_refused_on_dead_context", "writer_add_other", "writer_remove_other", "writer_clear_and_re_add", "setup_granted", "setup_refused_second_context", "futex_wait_blocked"],
+    );
+    rep.assume("a failing seal is a seal whose closure returns an error without using the key (driven through AfcState::seal); failures inside the AEAD itself are outside the explored space");
+    rep.assume("POSIX shm object emulated in-process; futex(2) model keyed by the word's identity (as for C41/C43)");
+    rep.assume("the shm state hands out one independent context per setup_seal_ctx call by design; 'no second live context' is only claimed (and checked) for the in-memory state");
+    rep.finish()
+}
+
 pub fn c41(args: &Args) -> ! {
     let mut rep = Report::new(args, Level::ModelChecking);
     let quick = args.tier == Tier::Quick;
